@@ -323,6 +323,16 @@ impl Prop for C05 {
         let (h, args) = request.as_call()?;
         match h {
             "required" => eval_required(args),
+            // authoring aid for corpus lines (not a protocol request): the rendering of the real IR
+            "ir-of" => {
+                let [schema, text] = args else { return None };
+                let text = String::from_utf8(unhex(text.as_atom()?)?).ok()?;
+                let schema = load_schema(schema)?;
+                Some(match compile(&schema.real, &text) {
+                    Err(names) => Answer::FrontendErr(names).render(),
+                    Ok(q) => ir_to_sexp(&q.ir_query).to_string(),
+                })
+            }
             "req-exec" => Some(match run_req(args)? {
                 Ok((rows, _, _)) => rows,
                 Err(answer) => answer,
